@@ -18,12 +18,32 @@ PROPS = {
             "rule": "one evaluation = one plan execution; every generated task-level sequence is executed once as generated (random multi-preemption), once without preemption and then once per preemption point of that clean run with a single tick ISR injected exactly there (sweep over lock entry, unlock exit, callback bodies and CO_VERIF_YIELD sites); non-trivial = an ISR actually fired inside an operation or an elapsed-unprocessed action was deleted; distinct = distinct abstract trace hash",
             "probes": ["preempt-fired", "del-elapsed-only", "del-elapsed-shared", "delete-detached-refused", "process-multi"],
             "assumptions": ["preemption is injected at function-call boundaries and guarded yield sites, never inside lock/unlock sections"]},
+    "C02": {"scenario": "sdo_dn", "level": "exploration", "runs": {"quick": 40000, "thorough": 3000000},
+            "rule": "one evaluation = one plan: 1-3 rounds of one or two interleaved reference-client sessions (mostly downloads; expedited/segmented/block, size announced or not, lost/duplicated block segments, second server in cfgB) driven frame by frame against the real server; after every client frame the responses are checked against CiA 301 and object storage against the session's payload; non-trivial = every run (each carries at least one complete session); distinct = distinct hash of the sequence of (session phase, mode, direction, fault, repeat) per step",
+            "probes": ["dn-exp", "dn-seg", "dn-blk", "confirmed", "refused", "F1-segment-lost", "F2-segment-duplicated", "blk-retransmit", "flush-at-889", "int-via-segmented-or-block", "two-servers-interleaved", "client-abort-after-lost-final-segment"],
+            "assumptions": ["conforming client only: never sends more than announced; a duplicated block-final segment is not generated; two sessions never share a server or an object"]},
+    "C03": {"scenario": "sdo_up", "level": "exploration", "runs": {"quick": 40000, "thorough": 3000000},
+            "rule": "as C02 with mostly uploads: every acknowledge of a block upload sub-block picks a prefix k of the segments sent (0..all) and a new block size; reassembled bytes are compared with the object's storage read before the transfer; distinct = distinct step-trace hash",
+            "probes": ["up-exp", "up-seg", "up-blk", "confirmed", "blkup-repeat", "two-servers-interleaved"],
+            "assumptions": ["pst = 0 (no protocol switch requested)"]},
+    "C04": {"scenario": "sdo_req", "level": "exploration", "runs": {"quick": 120000, "thorough": 6000000},
+            "rule": "one evaluation = one plan of 1-6 rounds [optional prefix that opens a transfer and advances it 1-6 frames; one request under test with any command byte, multiplexer and payload; client abort]; response count, addressee, multiplexer, verdict code (exact in idle state, CiA precedence) and side effects are checked; non-trivial = a request under test arrived in a non-idle server state; distinct = distinct hash of (server state, command class, mux class, low command bits) sequence",
+            "probes": ["idle-request", "positive-init", "verdict-no-object", "verdict-no-subindex", "verdict-read-only", "verdict-write-only", "verdict-length-high", "verdict-length-low", "verdict-type-code", "verdict-unknown-command", "verdict-toggle", "verdict-block-size", "verdict-accepted", "nonidle-request-state-1", "nonidle-request-state-2", "nonidle-request-state-3", "nonidle-request-state-4", "nonidle-request-state-5", "nonidle-request-state-6", "nonidle-request-state-7"],
+            "assumptions": ["requests with reserved command bits set, DLC < 8, or an indicated size of 0 are constrained in count and addressee only"]},
+    "C05": {"scenario": "sdo_wedge", "level": "exploration", "runs": {"quick": 40000, "thorough": 2000000},
+            "rule": "one evaluation = one plan: a history of 0-50 (thorough: 120) frames on the server's COB-ID (structured requests, garbage, abandoned reference sessions), then a client abort or an NMT reset communication/node, then 1-3 clean transfers from a covering set which must be confirmed with correct data; non-trivial = a clean transfer ran after recovery; distinct = distinct hash of (abstract server state via public struct, command class) sequence",
+            "probes": ["clean-transfer-after-recovery", "history-session", "reset-communication", "confirmed"],
+            "assumptions": ["the dictionary holds plain data objects only, 1200h entries are constant, so no history can legitimately reconfigure the server"]},
 }
 
 LEVEL_TEXT = {
     "C07": "Seeded exploration of create/delete/tick/process/conversion sequences against an exact lockstep timer model (due tick, once per expiry, slot accounting, create/delete verdicts) on the real timer module with a simulated hardware counter; exact to the tick. Exploration, not exhaustive to a depth bound.",
     "C08": "Fault enumeration over the preemption dimension: for every generated task-level sequence the tick ISR is injected once at every preemption point (lock entry, unlock exit, callback bodies, guarded yield sites between statements) plus random multi-preemption and deferred processing; pool-conservation walk at every point and exact lockstep model (insertion moment observed at the lock).",
+    "C02": "Seeded exploration: a reference CiA-301 client drives downloads of every mode/size/announce/loss pattern frame by frame against the real server (two servers interleaved in cfgB); every response field and the object bytes (incl. bytes beyond the payload and all other objects) are compared with the model after every frame.",
+    "C03": "Seeded exploration: reference client uploads with every block size, acknowledge prefix and block-size change; every segment's sequence number, c bit, data and the end frame's n are checked, reassembled bytes compared with storage.",
+    "C04": "Seeded exploration of arbitrary requests (all 256 command bytes, existing/absent/wrong-sub multiplexers, arbitrary payload) arriving in idle and in every non-idle server state reached by a conforming prefix; exact abort code in idle state, count/addressee/multiplexer/side effects in all states.",
+    "C05": "Seeded exploration of arbitrary frame histories followed by [client abort | NMT reset] and a clean transfer that must succeed: recovery reachability (AG EF idle) sampled over histories; sampling, not explicit-state enumeration.",
 }
 _WIP = "check not built yet in this round (work in progress; see DESIGN.md section 5 for the planned scenario)"
-NOT_APPLICABLE = {p: _WIP for p in ["C01", "C02", "C03", "C04", "C05", "C09", "C10", "C11", "C12", "C13", "C14", "C15", "C16", "C17", "C18", "C19", "C20"]}
+NOT_APPLICABLE = {p: _WIP for p in ["C01", "C09", "C10", "C11", "C12", "C13", "C14", "C15", "C16", "C17", "C18", "C19", "C20"]}
 NOT_APPLICABLE["C06"] = "pure function of (dictionary, key, value, length): no schedule, clock, peer, fault or history enters it, so deterministic simulation has nothing to decide; deciding it needs input enumeration / bounded model checking, which is another technique (DESIGN.md section 5, C06)"
